@@ -129,7 +129,6 @@ func runC17(ctx *Ctx) {
 	c17EndToEnd(ctx, r)
 }
 
-
 type c17Host struct {
 	name string
 	doc  func(q string) string
